@@ -293,6 +293,7 @@ func (r *Reader) initFields() error {
 			// Ignore this for avoiding infinite loop of the reference.
 			// The example case where this can occur is when tar contains the root
 			// directory itself (e.g. "./", "/").
+			ent.NumLink++ // "." references the root directory, as for the implicit root.
 			continue
 		}
 		for p := pdirName; ; p = parentDir(p) {
